@@ -43,4 +43,17 @@ TEXTS["C01"] = {"engine": "clock", "design_ref": "§4 C01", "technique": "discre
     "level_text": "exploration: after every release hits <= S(t)+1; a positive wait only when the next hit is not yet due; constant and sine never more than one hit (+1 ns per hit) behind after an honoured wait; no panic; negative parameters stop, zero means unlimited; Rate(t) equals the closed-form slope of the schedule. Six genuine defects found this way were repaired in /repo (see known_findings.json)",
     "level_note": "trusted: float64 evaluation of the declared closed forms (exact integers for the constant pacer); the ideal follower stands in for the attack loop (its obedience is C04)"}
 
+_REP_NOTE = "trusted: the reference computation in the harness (a dozen lines per quantity), float comparisons within 4 ulp, influxdata/tdigest as a black box; multisets are seeded samples"
+TEXTS.update({
+    "C10": {"engine": "stream", "design_ref": "§4 C10", "technique": "operation-by-operation reference model of Metrics driven by seeded histories of Add and Close (periodic-report ticks as injected events)",
+            "level_text": "exploration: every quantity of the closed report equals a direct computation from the documented definitions; identical across orders of addition and placements of intermediate/repeated Close calls",
+            "level_note": _REP_NOTE},
+    "C11": {"engine": "stream", "design_ref": "§4 C11", "technique": "seeded histories of Add/Close over generated latency multisets; rank-window oracle against the sorted multiset at every tick and at the end",
+            "level_text": "exploration: min <= p50 <= p90 <= p95 <= p99 <= max; every percentile between observed values within 1 + 1% n ranks of q*n; all-equal input reproduced exactly; hdrplot values non-decreasing. One known finding (t-digest interpolation across a wide gap) is matched by an exact signature with a bounded rank error",
+            "level_note": _REP_NOTE},
+    "C12": {"engine": "stream", "design_ref": "§4 C12", "technique": "reference partition of latencies over generated bounds, renderings parsed back at every simulated report tick including before the first result",
+            "level_text": "exploration: stored counts, JSON and text renderings show exactly the reference counts for exactly the given bounds at every tick and at the end, also when empty; textual bucket specifications with arbitrary spacing/units preserve the bounds and add the zero lower bound",
+            "level_note": _REP_NOTE},
+})
+
 NOT_APPLICABLE = {}
